@@ -131,7 +131,6 @@ theorem inv_rrEnter (s : St) (r : Nat) (inv : Inv s) (hr : r < s.rrs.length) (hp
   exact h2
 
 theorem inv_rrSkip (s : St) (r : Nat) (inv : Inv s) (hr : r < s.rrs.length) (hp : r ∈ s.pendingRun)
-    (hi : (getRr s r).inRun = none)
     (hd : ((getRr s r).cancelled || (getRr s r).stopped || (getRr s r).failed) = true) :
     Inv { setRr s r { getRr s r with skipped := (getRr s r).skipped + 1 } with pendingRun := s.pendingRun.erase r } := by
   exact inv_rr_update s r { getRr s r with skipped := (getRr s r).skipped + 1 } (s.pendingRun.erase r) inv hr rfl
@@ -142,12 +141,12 @@ theorem inv_rrSkip (s : St) (r : Nat) (inv : Inv s) (hr : r < s.rrs.length) (hp 
     (by
       intro h1 h2
       have acc := inv.account r hr h1 h2
-      rw [hi] at acc
       have hce := count_erase_self hp
-      show (s.pendingRun.erase r).count r + (if (getRr s r).inRun.isSome then 1 else 0) + ((getRr s r).skipped + 1) = _
-      rw [hi]
-      simp only [Option.isSome_none] at acc ⊢
-      omega)
+      show (s.pendingRun.erase r).count r + (if (getRr s r).inRun.isSome then 1 else 0) + ((getRr s r).skipped + 1) =
+        compFired s (getRr s r).comp
+      by_cases hi : (getRr s r).inRun.isSome = true
+      · simp only [hi, if_true] at acc ⊢; omega
+      · simp only [hi] at acc ⊢; omega)
     (fun q hq => count_erase_ne hq)
 
 theorem inv_rrExitFail (s : St) (r c : Nat) (inv : Inv s) (hr : r < s.rrs.length) (hi : (getRr s r).inRun = some c) :
